@@ -11,7 +11,7 @@ import random
 import numpy as np
 import z3
 
-from harness import common, outcheck
+from harness import common, c07, outcheck
 from harness.c07 import c07_meshes
 from harness.common import CaseResult, Obl
 from model import families
@@ -68,7 +68,7 @@ def expected_tree(ref, lim, cn, pos, names):
                         [(ref.ncell[l][cx], ref.ncell[l][cy]) for l in range(lim + 1)], boxes, data, mins, maxs)
 
 
-def run_slice(mods, ref, fields, limit, serial, cn, ctx, canary=False, concrete_pos=None):
+def run_slice(mods, ref, fields, limit, serial, cn, ctx, canary=False, concrete_pos=None, prior=()):
     Mandoline = mods['amr_kitchen.mandoline.mandoline'].Mandoline
     Taster = mods['amr_kitchen.taste.taste'].Taster
     lim = ref.nlev - 1 if limit is None else limit
@@ -84,9 +84,19 @@ def run_slice(mods, ref, fields, limit, serial, cn, ctx, canary=False, concrete_
     else:
         pos = concrete_pos
     what = 'Mandoline(fields=%r, limit_level=%r, serial=%r).slice(normal=%d, pos=pos, fformat="plotfile")' % (fields, limit, serial, cn)
+    if prior:
+        what = 'm = Mandoline(fields=%r, limit_level=%r, serial=%r); %s; m.slice(normal=%d, pos=pos, fformat="plotfile")' % (
+            fields, limit, serial, '; '.join('m.slice(normal=%d, pos=%r, fformat="return")' % (pn, c07.prior_pos(ref, pn)) for pn in prior), cn)
     with patch.Patched(mods, fs), common.quiet():
         try:
-            Mandoline('plt', fields=list(fields), limit_level=limit, serial=serial, verbose=0).slice(normal=cn, pos=pos, outfile='out2d', fformat='plotfile')
+            m = Mandoline('plt', fields=list(fields), limit_level=limit, serial=serial, verbose=0)
+            for pn in prior:
+                # a history on one retained object: a slice along another normal, returned in memory, comes first
+                try:
+                    m.slice(normal=pn, pos=c07.prior_pos(ref, pn), fformat='return')
+                except Exception:
+                    pass
+            m.slice(normal=cn, pos=pos, outfile='out2d', fformat='plotfile')
         except Exception as e:
             obl.fail('%s raised %s: %s' % (what, type(e).__name__, str(e)[:100]))
             return obl
@@ -166,6 +176,31 @@ def run_case(case):
                 if sig not in viol:
                     viol[sig] = {'signature': sig, 'what': msg[:400], 'args': [fields, limit, serial, cn], 'pos': posv, 'model': m}
 
+    # histories on one retained object
+    for prior, cn in ([((2,), 0), ((0,), 1)] if common.TIER == 'quick' else [((2,), 0), ((0,), 1), ((1, 0), 2)]):
+        fields, limit, serial = fl[1], None, True
+
+        def hpath(ctx, fields=fields, limit=limit, serial=serial, cn=cn, prior=prior):
+            return run_slice(mods, ref, fields, limit, serial, cn, ctx, prior=prior)
+        results, exhaustive, stats = core.explore(hpath, max_paths=600)
+        res.add_explore(results, exhaustive, stats)
+        npaths += stats['paths']
+        for ctx, obl in results:
+            res.add_obl(obl)
+            if obl.failed and not ctx.flags:
+                msg, model = obl.failed[0]
+                m = model or ctx.model()
+                posv = None
+                if m is not None:
+                    try:
+                        posv = common.Valuation(m)(core.real('pos'))
+                    except Exception:
+                        posv = None
+                sig = 'C16/history/normal%d-after-%s' % (cn, ''.join(str(x) for x in prior))
+                if sig not in viol:
+                    viol[sig] = {'signature': sig, 'what': msg[:400], 'args': [fields, limit, serial, cn], 'pos': posv, 'model': m,
+                                 'prior': [[pn, c07.prior_pos(ref, pn)] for pn in prior]}
+
     def canary(ctx):
         return run_slice(mods, ref, [ref.fields[0]], None, True, 0, ctx, canary=True)
     cres, _, _ = core.explore(canary, max_paths=600)
@@ -207,8 +242,10 @@ def make_replay(ref, v):
     run = ("from amr_kitchen.mandoline.mandoline import Mandoline\nimport contextlib, io\n"
            "junk = [np.full((64, 64), 1.2345e5) for _ in range(64)]\ndel junk\n"
            "with contextlib.redirect_stdout(io.StringIO()):\n"
-           "    Mandoline(os.path.join(IN, 'plt'), fields=%r, limit_level=%r, serial=%r, verbose=0).slice(normal=%d, pos=%r, outfile=OUT, fformat='plotfile')\n"
-           % (list(fields), limit, serial, cn, posv))
+           "    m = Mandoline(os.path.join(IN, 'plt'), fields=%r, limit_level=%r, serial=%r, verbose=0)\n"
+           "    for pn, pp in %r:\n        try:\n            m.slice(normal=pn, pos=pp, fformat='return')\n        except Exception:\n            pass\n"
+           "    m.slice(normal=%d, pos=%r, outfile=OUT, fformat='plotfile')\n"
+           % (list(fields), limit, serial, v.get('prior') or [], cn, posv))
     return replay_lib.make_tool_replay('C16', v['signature'], v['what'], {'plt': (fs, '/work/plt')}, run,
                                        {'kind': 'tree', 'tree_exp': exp, 'compare': 'close'}, val=val)
 
